@@ -18,6 +18,10 @@ func runC06(c *Ctx) {
 	w := c.W
 	eff := newEffects(w)
 	checkActionsAtomic(c, eff)
+	checkCrashLeftovers(c)
+	// the cache file follows every change of the excerpts (shared with C11)
+	c.Doc("R11.1", "per SubCache function: excerpts store ⇒ index write; delete ⇒ Index.Remove; reset ⇒ Index.Clear; and SubCache.write() on every path to a non-error exit")
+	checkExcerptIndexPairing(c)
 	// what is read is witnessed, merge commits included: the next commit sorts after it (shared with C05)
 	checkWitnessAll(c, "R5.3")
 	c.Doc("R6.1", "after a successful ref-moving call no object write, ref update or clock increment is reachable inside the write path; the hash given to UpdateRef is the result of the last commit write of the path (or the resolved remote head)")
@@ -330,4 +334,130 @@ func samePkgHelper(fn *ssa.Function, v ssa.Value) *ssa.Function {
 		return nil
 	}
 	return callee
+}
+
+// R6.6–R6.8 (third round of seeded changes): what a crash can leave behind must be readable.
+func checkCrashLeftovers(c *Ctx) {
+	w := c.W
+	c.Doc("R6.6", "every file PersistedClock creates lives at the clock's own path: GoGitRepo.AllClocks takes every entry of the clocks directory for a clock, so a temporary sibling (name.tmp) left by a crash would be loaded as a clock of its own — unless AllClocks filters the entry names")
+	c.Doc("R6.7", "the lock file holds exactly what its reader parses: RepoCache.lock writes the decimal pid and nothing else when repoIsAvailable hands the bytes to strconv.Atoi untrimmed (a trailing newline would make every stale lock unparseable and the repository unusable after a crash)")
+	c.Doc("R6.8", "each ref-moving method of GoGitRepo performs exactly one reference mutation of go-git: UpdateRef and CopyRef one SetReference, RemoveRef one RemoveReference — a ref update built from a removal followed by a set leaves no ref at all when interrupted in between")
+	// R6.6
+	filters := false
+	if ac := w.Method("repository", "GoGitRepo", "AllClocks"); ac != nil {
+		for _, cl := range Calls(ac) {
+			if strings.HasPrefix(cl.Name, "strings.Has") || cl.Name == "path/filepath.Ext" || cl.Name == "strings.Contains" {
+				filters = true
+			}
+		}
+	}
+	n := 0
+	for _, fn := range w.ModFns {
+		if fnPkgPath(fn) != modPath+"/util/lamport" || fn.Signature.Recv() == nil || !strings.Contains(typeShortName(fn.Signature.Recv().Type()), "PersistedClock") {
+			continue
+		}
+		for _, cl := range Calls(fn) {
+			e := primEffect(cl.Name)
+			if effClass(e) != "FILE" || strings.HasSuffix(e, "Remove") || strings.HasSuffix(e, "RemoveAll") {
+				continue
+			}
+			// the path argument: the first string-typed argument
+			var path ssa.Value
+			for _, a := range cl.Instr.Common().Args {
+				if isStringType(a.Type()) {
+					path = a
+					break
+				}
+			}
+			if path == nil {
+				continue
+			}
+			n++
+			c.Sites++
+			c.seeFn(funcName(fn))
+			ok := true
+			var shapes []string
+			for _, t := range templatesOf(path) {
+				shapes = append(shapes, t.String())
+				if !(t.Shape() == "‹›" && len(t.Holes()) == 1 && strings.Contains(t.Holes()[0], "filePath")) {
+					ok = false
+				}
+			}
+			if strings.HasSuffix(e, "Rename") {
+				// the destination must be the clock's own path as well
+				args := cl.Args()
+				if len(args) >= 2 {
+					for _, t := range templatesOf(args[len(args)-1]) {
+						if !(t.Shape() == "‹›" && len(t.Holes()) == 1 && strings.Contains(t.Holes()[0], "filePath")) {
+							ok = false
+						}
+					}
+				}
+			}
+			c.Check(ok || filters, "R6.6", funcName(fn)+":"+e+":at-the-clock-path", w.InstrPos(cl.Instr), "writes the clock's own file", "a file "+strings.Join(shapes, " | ")+" is created next to the clock file, and GoGitRepo.AllClocks loads every entry of that directory as a clock: after a crash the leftover becomes a phantom clock that identity versions record and later miss ('version has less lamport clocks than before')")
+		}
+	}
+	if n == 0 {
+		c.Violate("R6.6", "expected:clock-file-writes", "util/lamport", "no file write found in PersistedClock")
+	}
+	// R6.7
+	lk := w.Method("cache", "RepoCache", "lock")
+	ria := w.Func("cache", "repoIsAvailable")
+	if lk == nil || ria == nil {
+		c.Undecided("R6.7", "anchor:RepoCache.lock/repoIsAvailable", "cache", "not found")
+	} else {
+		c.seeFn(funcName(lk))
+		trims := false
+		for _, cl := range Calls(ria) {
+			if cl.Name == "strings.TrimSpace" || cl.Name == "bytes.TrimSpace" || cl.Name == "strings.Fields" || cl.Name == "fmt.Sscanf" || cl.Name == "fmt.Sscan" {
+				trims = true
+			}
+		}
+		okW, shape := false, "?"
+		for _, cl := range Calls(lk) {
+			if !strings.HasSuffix(cl.Name, ".Write") && !strings.HasSuffix(cl.Name, ".WriteString") {
+				continue
+			}
+			c.Sites++
+			args := cl.Args()
+			if len(args) == 0 {
+				continue
+			}
+			ts := templatesOf(stripConv(args[len(args)-1]))
+			if len(ts) == 0 {
+				ts = templatesOf(args[len(args)-1])
+			}
+			for _, t := range ts {
+				shape = t.String()
+				okW = t.Shape() == "‹›" && len(t.Holes()) == 1
+			}
+		}
+		c.Check(okW || trims, "R6.7", "RepoCache.lock:content-is-what-the-reader-parses", w.FnPos(lk), "the lock holds the pid only", "the lock file is written as "+shape+" but repoIsAvailable parses its bytes with strconv.Atoi without trimming: after a crash of the holder the stale lock cannot be parsed, every later open fails until the file is removed by hand")
+	}
+	// R6.8
+	for _, m := range []struct{ name, mut string }{{"UpdateRef", "SetReference"}, {"CopyRef", "SetReference"}, {"RemoveRef", "RemoveReference"}} {
+		fn := w.Method("repository", "GoGitRepo", m.name)
+		if fn == nil {
+			c.Undecided("R6.8", "anchor:GoGitRepo."+m.name, "repository", "not found")
+			continue
+		}
+		c.seeFn(funcName(fn))
+		nWant, other := 0, ""
+		for _, cl := range Calls(fn) {
+			recv, mm := lastDot(cl.Name)
+			if !strings.HasPrefix(recv, "github.com/go-git/go-git/v5") {
+				continue
+			}
+			if _, isMut := gogitMutators[mm]; !isMut || mm == "ResolveRevision" {
+				continue
+			}
+			c.Sites++
+			if mm == m.mut {
+				nWant++
+			} else {
+				other = mm + " at " + w.InstrPos(cl.Instr)
+			}
+		}
+		c.Check(nWant == 1 && other == "", "R6.8", "GoGitRepo."+m.name+":single-reference-mutation", w.FnPos(fn), "one "+m.mut, fmt.Sprintf("%s performs %d %s and %s: the ref change is not a single step of the storage, an interruption in between leaves the entity without any ref (neither its old nor its new state)", m.name, nWant, m.mut, map[bool]string{true: "no other mutation", false: other}[other == ""]))
+	}
 }
